@@ -2,6 +2,9 @@ module verifharness
 
 go 1.14
 
-require github.com/skycoin/skycoin v0.0.0
+require (
+	github.com/shopspring/decimal v0.0.0-20180709203117-cd690d0c9e24
+	github.com/skycoin/skycoin v0.0.0
+)
 
 replace github.com/skycoin/skycoin => /repo
